@@ -45,6 +45,17 @@ type topo struct {
 	RemoteFirst bool
 }
 
+// class is the coarse kind of history a topology produces; it is part of every violation key.
+func (t topo) class() string {
+	switch {
+	case t.Late != nil:
+		return "dc-joins-later"
+	case t.Transfer:
+		return "allocator-moves"
+	}
+	return "static"
+}
+
 var topologies = map[string]topo{
 	"3dc":      {Name: "3dc", Zones: []string{"dc-1", "dc-2", "dc-3"}},
 	"2dc":      {Name: "2dc", Zones: []string{"dc-1", "dc-1", "dc-2"}},
@@ -414,7 +425,7 @@ func (q *requester) do(dc string, count uint32, mode string, round int, force in
 				if p := recover(); p != nil {
 					o.Ret = hist.Tick()
 					o.Err = fmt.Sprintf("panic: %v", p)
-					c.r.Violation("panic-in-tso-request:"+c.t.Name, fmt.Sprintf("HandleTSORequest(%s,%d) panicked: %v", dc, count, p),
+					c.r.Violation("panic-in-tso-request:"+c.t.class(), fmt.Sprintf("HandleTSORequest(%s,%d) panicked: %v", dc, count, p),
 						map[string]interface{}{"op": o, "notes": c.notesCopy()})
 				}
 			}()
@@ -715,6 +726,7 @@ func runTopology(r *ev.Run, t topo, rng *rand.Rand, rounds int) {
 	dcs := c.dcs(false)
 	if !c.waitServing(dcs, 150*time.Second) {
 		r.Inconclusive("%s: allocators %v + global did not all serve within 150 s (placement %s)", t.Name, dcs, c.placement())
+		c.judgeSuffixOnly() // the suffix clauses do not depend on anybody serving
 		return
 	}
 	c.note("serving: %s", c.placement())
@@ -746,6 +758,7 @@ func runTopology(r *ev.Run, t topo, rng *rand.Rand, rounds int) {
 			dcs = c.dcs(true)
 			if !c.waitServing(dcs, 150*time.Second) {
 				r.Inconclusive("%s: after the late member joined, allocators %v + global did not all serve within 150 s (placement %s)", t.Name, dcs, c.placement())
+				c.judgeSuffixOnly()
 				return
 			}
 			c.note("serving: %s", c.placement())
@@ -812,17 +825,16 @@ func main() {
 			}
 		}
 	}
-	for pi, name := range plan {
+	for _, name := range plan {
 		t := topologies[name]
-		rounds := r.Pick(30, 60)
+		rounds := r.Pick(30, 150)
 		if t.Late != nil && !r.Thorough() {
 			rounds = 12
 		}
-		_ = pi
 		runTopology(r, t, rng, rounds)
 	}
-	suffixAddon(r, rng, r.Pick(24, 40))
-	r.Floor(int64(r.Pick(30, 60)))
+	suffixAddon(r, rng, r.Pick(24, 60))
+	r.Floor(int64(r.Pick(30, 100)))
 	r.Finish()
 }
 
